@@ -201,7 +201,9 @@ def tiered(ref, got, exp, S_cond, rtol, build, mask=None):
     Epk, Spk = build(ref.with_package_tables())
     if mask is not None:
         Epk, Spk = mask(Epk), mask(Spk)
-    r2, i2 = worst(got, Epk, Spk, rtol)
+    # 1e-3 of the envelope: the extension modules and the ctypes library are separate compilations of the generated functions,
+    # their rounding noise differs by a few eps of the conditioning scale (observed <= 7e-5 of the envelope)
+    r2, i2 = worst(got, Epk, Spk + 1e-3 * S_cond, rtol)
     if r2 > 1:
         return 'violation', float(r2), i2, dict(kind='kernel differs from the same formula evaluated with the package\'s own table values',
                                                 got=float(got[i2]), with_package_tables=float(Epk[i2]))
